@@ -550,6 +550,7 @@ class Result:
         self.unexpanded = 0
         self.capped = False
         self.replay_structural_mismatch = 0
+        self.cap = 0
 
 
 _X: t.Dict[str, t.Any] = {}
@@ -574,16 +575,19 @@ def _expand(chunk: t.Tuple[int, int]) -> t.List[t.Any]:
     return out
 
 
+BATCH = 1500
 STATE_CAP = 30000  # several times the state count of the pinned tree at the thorough bound: a space that keeps growing is cut here
 
 
-def explore(role: str, kmax: int, known: t.Set[t.Tuple[str, str]], seed: int = 0, parallel: bool = False, prop: t.Optional[str] = None, id_base: int = 0) -> Result:
+def explore(role: str, kmax: int, known: t.Set[t.Tuple[str, str]], seed: int = 0, parallel: bool = False, prop: t.Optional[str] = None, id_base: int = 0, cap: int = 0) -> Result:
     """``prop``: the property whose check is running.  An edge that violates one of *its* monitors is not expanded
     (its target lies outside the specified behaviour) unless the violation is a listed known finding; violations of
     other properties' monitors do not stop the search (each check must find what it can on its own)."""
     global ID_BASE
     ID_BASE = id_base
     res = Result()
+    cap = cap or STATE_CAP
+    res.cap = cap
     evs = events(role, kmax)
     init = new_session(role)
     seen: t.Dict[t.Any, int] = {(A.freeze(init), g0(role)): 0}
@@ -593,47 +597,53 @@ def explore(role: str, kmax: int, known: t.Set[t.Tuple[str, str]], seed: int = 0
     probe = [e for e in evs if e[0] == "call"][:3] + [e for e in evs if e[0] == "recv"][:3] + [e for e in evs if e[0] == "recvpair"][:2]
     assert run_history(role, probe, kmax)[1] == run_history(role, probe, kmax)[1], "replay is not deterministic"
     while frontier:
-        if res.states > STATE_CAP:
+        if res.states > cap:
             res.capped = True  # reported in the evidence (exhaustive = false); violations found so far still count
             break
         res.levels += 1
         _X.update(role=role, kmax=kmax, events=evs, known=known, frontier=frontier, prop=prop)
-        chunks = par.split(len(frontier), (par.ncpu() * 4) if parallel and len(frontier) > 64 else 1)
-        results = par.pmap(_expand, chunks, seed) if len(chunks) > 1 else [_expand(c) for c in chunks]
         nxt: t.List[t.Any] = []
-        for part in results:
-            for idx, ev, key, s2, g2, viol, outcome in part:
-                res.transitions += 1
-                res.outcomes.add(outcome)
-                hist = frontier[idx][2]
-                for p, k, w in viol:
-                    e = res.viol.get((p, k))
-                    if e is None:
-                        res.viol[(p, k)] = {"what": w, "history": hist + [ev], "count": 1}
-                    else:
-                        e["count"] += 1
-                if s2 is None:
-                    res.unexpanded += 1
-                    continue
-                if key not in seen:
-                    if res.states > STATE_CAP:
-                        res.capped = True
-                        continue
-                    seen[key] = len(seen)
-                    res.states += 1
-                    h2 = hist + [ev]
-                    # conformance: replaying the history on a fresh object reaches the same canonical state
-                    s3, _obs = run_history(role, h2, kmax)
-                    if A.freeze(s3) != key[0]:
-                        # structurally different: tolerable only if nothing a caller can see differs (private bookkeeping the
-                        # calibration runs did not classify); a visible difference means the exploration is not deterministic
-                        if A.public_view(s3) != A.public_view(s2) or copy.deepcopy(s3).data_to_send() != copy.deepcopy(s2).data_to_send():
-                            raise AssertionError(f"deepcopy-then-step and replay disagree after {h2}")
-                        res.replay_structural_mismatch += 1
-                    res.validated += 1
-                    if len(res.sample_paths) < 6 and len(h2) >= 3:
-                        res.sample_paths.append([list(e) for e in h2])
-                    nxt.append((s2, g2, h2))
+        # in batches, so that a space that has stopped closing (every successor new) is cut at the cap before all
+        # successors of a huge frontier have been computed and shipped back
+        for b0 in range(0, len(frontier), BATCH):
+          if res.capped:
+            break
+          b1 = min(len(frontier), b0 + BATCH)
+          chunks = [(b0 + lo, b0 + hi) for lo, hi in par.split(b1 - b0, (par.ncpu() * 4) if parallel and b1 - b0 > 64 else 1)]
+          results = par.pmap(_expand, chunks, seed) if len(chunks) > 1 else [_expand(c) for c in chunks]
+          for part in results:
+              for idx, ev, key, s2, g2, viol, outcome in part:
+                  res.transitions += 1
+                  res.outcomes.add(outcome)
+                  hist = frontier[idx][2]
+                  for p, k, w in viol:
+                      e = res.viol.get((p, k))
+                      if e is None:
+                          res.viol[(p, k)] = {"what": w, "history": hist + [ev], "count": 1}
+                      else:
+                          e["count"] += 1
+                  if s2 is None:
+                      res.unexpanded += 1
+                      continue
+                  if key not in seen:
+                      if res.states > cap:
+                          res.capped = True
+                          continue
+                      seen[key] = len(seen)
+                      res.states += 1
+                      h2 = hist + [ev]
+                      # conformance: replaying the history on a fresh object reaches the same canonical state
+                      s3, _obs = run_history(role, h2, kmax)
+                      if A.freeze(s3) != key[0]:
+                          # structurally different: tolerable only if nothing a caller can see differs (private bookkeeping the
+                          # calibration runs did not classify); a visible difference means the exploration is not deterministic
+                          if A.public_view(s3) != A.public_view(s2) or copy.deepcopy(s3).data_to_send() != copy.deepcopy(s2).data_to_send():
+                              raise AssertionError(f"deepcopy-then-step and replay disagree after {h2}")
+                          res.replay_structural_mismatch += 1
+                      res.validated += 1
+                      if len(res.sample_paths) < 6 and len(h2) >= 3:
+                          res.sample_paths.append([list(e) for e in h2])
+                      nxt.append((s2, g2, h2))
         frontier = nxt
     return res
 
@@ -683,7 +693,7 @@ def report(ctx: t.Any, prop: str, role: str, kmax: int, res: Result, id_base: in
     ctx.add(f"{role}_violating_edges_not_expanded", res.unexpanded)
     if res.capped:
         ctx.exhaustive = False
-        ctx.note(f"{role}_state_cap_hit", f"search stopped after {res.states} states (cap {STATE_CAP}): the reachable space did not close; everything below BFS level {res.levels} was covered")
+        ctx.note(f"{role}_state_cap_hit", f"search stopped after {res.states} states (cap {res.cap}): the reachable space did not close; everything below BFS level {res.levels} was covered")
         print(f"INCOMPLETE: {role} search stopped at the state cap ({res.states} states); see evidence")
     ctx.distinct |= {(role,) + o for o in res.outcomes}
     for (p, k), e in res.viol.items():
